@@ -968,6 +968,7 @@ func c14ConcRun(rep *verifutil.Report, run int, progress *int64, seen map[string
 	rep.Count("conc_submitter_ops", int(atomic.LoadInt64(&c.subOps)))
 	rep.Eval(1)
 	rep.Count("conc_runs", 1)
+	c14Release(w)
 }
 
 func TestVerifC14Conc(t *testing.T) {
